@@ -49,6 +49,15 @@ func main() {
 		}
 		return
 	}
+	if os.Getenv("MINVERIF_DEV") == "dimension-survey" {
+		prog, err := load.Load(load.Config{Dir: *repo})
+		if err != nil {
+			fmt.Fprintln(os.Stderr, err)
+			os.Exit(2)
+		}
+		rules.NewCtx(prog, report.New("C08"), "quick").DimensionSurvey()
+		return
+	}
 	if *list {
 		for _, id := range rules.IDs() {
 			fmt.Println(id)
